@@ -563,6 +563,14 @@ func (l *Logger) rotateFileLocked() {
 
 	// Rename with timestamp
 	rotatedPath := fmt.Sprintf("%s.%s", l.filePath, time.Now().Format("20060102-150405"))
+	// Two rotations within one second must not overwrite the first rotated file
+	base := rotatedPath
+	for i := 1; ; i++ {
+		if _, err := os.Stat(rotatedPath); err != nil {
+			break
+		}
+		rotatedPath = fmt.Sprintf("%s.%03d", base, i)
+	}
 	os.Rename(l.filePath, rotatedPath)
 
 	// Compress if enabled
